@@ -12,6 +12,7 @@ pub mod c12;
 pub mod c15;
 pub mod c17;
 pub mod c19;
+pub mod c20;
 pub mod lines;
 
 use crate::report::{Run, Violation};
@@ -63,6 +64,7 @@ pub fn dispatch(run: &mut Run) -> bool {
         "C15" => c15::run(run),
         "C17" => c17::run(run),
         "C19" => c19::run(run),
+        "C20" => c20::run(run),
         _ => return false,
     }
     true
